@@ -286,7 +286,17 @@ func runOne(sc *scen, st sched.Strategy, settle bool, hit map[int]bool) (rs resu
 	// parked-goroutine predicates at the quiescent point
 	parkedCloses := 0
 	if out == sched.Quiescent {
+		// a pending task counts as parked only when its goroutine really sits in the select of Accept / Buffer.Read
+		inSel := map[int64]bool{}
+		for _, g := range gstate.Snapshot() {
+			if g.State == "select" && (g.Has("udp.(*listener).Accept") || g.Has("packetio.(*Buffer).Read")) {
+				inSel[g.ID] = true
+			}
+		}
 		for _, t := range s.Pending() {
+			if (t.Name == "A" || strings.HasPrefix(t.Name, "R")) && !inSel[t.GoID] {
+				continue
+			}
 			switch {
 			case strings.HasPrefix(t.Name, "LC") || strings.HasPrefix(t.Name, "C"):
 				// a Close call may wait for the socket, i.e. for connections the harness still holds open:
